@@ -21,6 +21,9 @@ type Obligation struct {
 	Pos    string
 	Canary bool // must FAIL (vacuity guard)
 	Path   int
+	Ctx    *Ctx
+	ReplayGo string // custom replay: Go test body run against the real code
+	ReplayDir string
 }
 
 type CallRec struct {
@@ -74,6 +77,7 @@ type WriteSet struct {
 	HeapRefs map[string]heapRef // key: leaf + ref id
 	WholeHeap map[string]bool   // leaf keys havoced entirely
 	Ghosts   map[string]bool
+	MaxID    int
 }
 
 type objPath struct {
@@ -224,6 +228,9 @@ type Ctx struct {
 	Trace    bool
 	Notes    []string
 	curState *State
+	ParamVals []Value
+	InitSym map[int]*Object
+	InlineAll bool
 	alloc0   *Term
 	initVals map[*Object]Value
 	globals  map[*ssa.Global]*Object
@@ -288,9 +295,11 @@ func (c *Ctx) newObject(name string, t types.Type) *Object {
 	return &Object{ID: c.nobj, Name: name, Typ: t}
 }
 
+var globalFresh int
+
 func (c *Ctx) freshName(p string) string {
-	c.nfresh++
-	return fmt.Sprintf("%s_%d", sanitize(p), c.nfresh)
+	globalFresh++
+	return fmt.Sprintf("%s_%d", sanitize(p), globalFresh)
 }
 
 // symbolic builds a fresh symbolic value of type t. Constraints go to st.PC.
@@ -790,6 +799,9 @@ func (c *Ctx) noteObjWrite(st *State, o *Object, path []PathElem) {
 		st.Disc.ObjPaths[pathKey(o, ip)] = objPath{o, ip}
 	}
 	for _, ws := range st.Record {
+		if o.ID > ws.MaxID {
+			continue // allocated inside the loop
+		}
 		ok := false
 		for _, op := range ws.ObjPaths {
 			if op.Obj == o && hasPrefix(ip, op.Path) {
